@@ -143,7 +143,7 @@ def run(case, j):
 
     # ---- grid with the exact least-squares regressor (one regressor object for the whole sweep; the
     # estimator of the first grid point has a past: an earlier fit on other data with the same objects)
-    robj = pc.make_regressor(lr)
+    robj = pc.make_regressor(lr, abort=True)
     lx, ly, lyh = [], [], []
     for a in GRID:
         past = np.random.default_rng(case["cseed"] + 17) if (case["cseed"] % 3 == 0 and a in (0.0, 0.5)) else None
@@ -197,7 +197,7 @@ def run(case, j):
     # ---- ridge: optimality w.r.t. its own Yhat
     rg = case["ridge"]
     Yhr, _ = pc.oracle_yhat(rg, X, Y)
-    rgobj = pc.make_regressor(rg)
+    rgobj = pc.make_regressor(rg, abort=True)
     for i_, a in enumerate(case["ridge_mix"]):
         past = np.random.default_rng(case["cseed"] + 23) if (case["cseed"] % 2 == 0 and i_ == 0) else None
         est = pc.fit_pcovr(j, f"ridge a={a:.3f}", X, Y, rg, regressor_obj=rgobj, past=past, mixing=a, n_components=k, space=space, **skw)
